@@ -394,20 +394,12 @@ def ascii_cut(ctx, lexpr):
     if g is None:
         r.anchor_missing("SliceRead::parse_symbol_bytes")
         return
-    term = set()
-    cont = set()
-    for d in list(range(256)) + [None]:
-        S2 = lex.make_sim([lexpr], d)
-        outs = set()
-        for p in S2.run(g):
-            outs.add("consume" if lex.consumed(p) else "stop")
-        if outs == {"consume"}:
-            cont.add(d)
-        elif outs == {"stop"}:
-            term.add(d)
-        else:
-            r.violation(g.path, "inexact", "cannot classify byte %s in the slice symbol scanner" % lex.fmt_bytes([d]))
-            return
+    from .. import classes
+    try:
+        term, cont = classes.scanner_classes(lexpr, g.path)
+    except classes.Inexact as e:
+        r.violation(g.path, "inexact", "cannot classify the bytes of the slice symbol scanner: %s" % e)
+        return
     nonascii = {b for b in term if b is not None and b >= 0x80}
     if not term - {None}:
         r.anchor_missing("slice symbol scanner has no terminator bytes")
@@ -461,6 +453,14 @@ def classify_scratch_write(fn, defs, t, crate):
         c = common.const_int(a)
         if c is not None and 0 <= c < 0x80:
             return "ascii-const", "push(0x%02X)" % c
+        # an entry of a static byte table whose entries are all ASCII (`scratch.push(ESCAPE_TABLE[ch as usize])`)
+        o = common.origin(fn, defs, a)
+        if o["k"] == "place" and any(isinstance(e, dict) and ("i" in e or "ci" in e) for e in o["pl"]["p"]):
+            ds = defs.get(o["pl"]["l"], [])
+            if len(ds) == 1 and ds[0][1] != "term" and ds[0][2]["k"] == "use" and ds[0][2]["op"].get("static"):
+                bs = crate.static_bytes(ds[0][2]["op"]["static"])
+                if bs is not None and len(bs) > 0 and all(0 <= x < 0x80 for x in bs):
+                    return "ascii-const", "push of an entry of the all-ASCII table %s" % ds[0][2]["op"]["static"]
         return "RAW", "push of a non-constant byte"
     if m in ("extend_from_slice", "extend"):
         o = common.origin(fn, defs, a)
@@ -469,10 +469,15 @@ def classify_scratch_write(fn, defs, t, crate):
             if pp.endswith("<impl str>::as_bytes"):
                 # char::encode_utf8(..).as_bytes() or &str bytes: whole UTF-8 either way
                 return "str-bytes", "bytes of a &str"
-            if o["t"]["callee"].get("trait") == "std::ops::Index":
-                b0 = common.origin(fn, defs, o["t"]["args"][0])
+            # a sub-slice of the input, possibly of a sub-slice of it (`rest = &self.slice[start..]; &rest[..len]`)
+            cur = o
+            for _ in range(4):
+                if not (cur["k"] == "call" and cur["t"]["callee"].get("trait") == "std::ops::Index"):
+                    break
+                b0 = common.origin(fn, defs, cur["t"]["args"][0])
                 if b0["k"] == "place" and "slice" in common.field_names(b0["pl"]):
                     return "input-subslice", "self.slice[a..b]"
+                cur = b0
         return "RAW", "extend from an unrecognised source"
     return "RAW", m
 
